@@ -123,10 +123,81 @@ impl crate::e3::Body for FaultBody {
     }
 }
 
+/// A journal failure inside fjall's own worker (journal rotation during a flush): the instance must be poisoned,
+/// later writes refused, and dropping the database must still terminate.
+pub struct WorkerFaultBody {
+    pub fail_at: i64,
+}
+
+impl crate::e3::Body for WorkerFaultBody {
+    fn name(&self) -> String {
+        format!("worker rotates the journal, journal op #{} fails; writer; drop", self.fail_at)
+    }
+    fn launch(&self, dir: &std::path::Path) -> crate::e3::Launched {
+        use crate::sched::*;
+        use std::sync::atomic::{AtomicUsize, Ordering};
+        use std::sync::Arc;
+        let db = fjall::Database::builder(dir).worker_threads_unchecked(1).open().expect("open");
+        let ks = db.keyspace("x", fjall::KeyspaceCreateOptions::default).expect("ks");
+        ks.insert("base", "0").expect("prep");
+        ks.rotate_memtable().expect("rotate");
+        GLOBAL_FAKE_JOURNAL_POS.store(65_000_000, Ordering::Relaxed);
+        let armed = shim_arm(self.fail_at, 5);
+        let done = Arc::new(AtomicUsize::new(0));
+        let log: Arc<Mutex<Vec<(u64, u64, bool)>>> = Arc::new(Mutex::new(vec![]));
+        let poisoned_seen = Arc::new(AtomicUsize::new(0));
+        let mut handles = vec![];
+        {
+            let (ks, done, log) = (ks.clone(), done.clone(), log.clone());
+            handles.push(spawn_client("writer", move || {
+                for k in ["a", "b"] {
+                    let call = sched().now();
+                    client_point("client.call");
+                    let ok = ks.insert(k, "1").is_ok();
+                    log.lock().unwrap().push((call, sched().now(), ok));
+                }
+                drop(ks);
+                done.fetch_add(1, Ordering::SeqCst);
+            }));
+        }
+        {
+            let (done, poisoned_seen) = (done.clone(), poisoned_seen.clone());
+            handles.push(spawn_client("closer", move || {
+                client_block_until(&|| done.load(Ordering::SeqCst) == 1, "closer.wait_clients");
+                // let the worker finish what is queued: wait until the flush queue is empty or the instance is poisoned
+                client_block_until(&|| db.outstanding_flushes() == 0 || db.verif_is_poisoned(), "closer.wait_worker");
+                if db.verif_is_poisoned() {
+                    poisoned_seen.store(1, Ordering::SeqCst);
+                    if ks.insert("late", "1").is_ok() {
+                        poisoned_seen.store(2, Ordering::SeqCst);
+                    }
+                }
+                shim_disarm();
+                GLOBAL_FAKE_JOURNAL_POS.store(0, Ordering::Relaxed);
+                drop(ks);
+                drop(db);
+            }));
+        }
+        let judge = Box::new(move |_dir: &std::path::Path| -> Result<String, Violation> {
+            if !armed {
+                return Err(Violation::new("machinery.shim_not_loaded", "fjallfs_arm_fail not found"));
+            }
+            if poisoned_seen.load(Ordering::SeqCst) == 2 {
+                return Err(Violation::new("not_fail_stop.after_worker_failure", "the instance was poisoned by the worker's journal failure, yet a later insert was acknowledged"));
+            }
+            Ok(format!("poisoned={} writes={:?}", poisoned_seen.load(Ordering::SeqCst), log.lock().unwrap().iter().map(|l| l.2).collect::<Vec<_>>()))
+        });
+        crate::e3::Launched { handles, judge }
+    }
+}
+
 pub fn bodies(tier: &str) -> Vec<crate::e3::BodySpec> {
     let q = tier == "quick";
     let b = |body: FaultBody, bound: usize, secs: f64| crate::e3::BodySpec { body: std::sync::Arc::new(body), bound, secs };
     let mut v = vec![b(FaultBody { name: "2 writers, 1st journal write fails", fail_at: 1, writers: 2 }, 2, if q { 5.0 } else { 120.0 })];
+    for k in if q { vec![1i64, 2] } else { vec![1, 2, 3, 4] } {
+        v.push(crate::e3::BodySpec { body: std::sync::Arc::new(WorkerFaultBody { fail_at: k }), bound: if q { 0 } else { 1 }, secs: if q { 3.0 } else { 60.0 } });
+    }
     if !q {
         v.push(b(FaultBody { name: "3 writers, 2nd journal write fails", fail_at: 2, writers: 3 }, 2, 200.0));
     }
